@@ -39,6 +39,19 @@ e = priority(p.eft) || deny
 m = r.sub == p.sub && r.obj == p.obj && r.act == p.act
 """
 
+DOM = """[request_definition]
+r = sub, dom, obj, act
+[policy_definition]
+p = sub, dom, obj, act
+[role_definition]
+g = _, _, _
+[policy_effect]
+e = some(where (p.eft == allow))
+[matchers]
+m = g(r.sub, p.sub, r.dom) && r.dom == p.dom && r.obj == p.obj && r.act == p.act
+"""
+GD_RULES = [["alice", "admin", "d1"], ["bob", "admin", "d1"], ["alice", "admin", "d2"]]
+
 P_RULES = [["alice", "data1", "read"], ["bob", "data1", "read"], ["alice", "data2", "write"]]
 G_RULES = [["alice", "admin"], ["bob", "admin"], ["admin", "root"]]
 
@@ -302,7 +315,7 @@ def run_history(shape, hist, form):
     for op in hist:
         try:
             r = call(op)
-            s = res_str(r)
+            s = enc_list([enc_str(v) for v in r]) if op[0] == "values" else res_str(r)
         except Exception as ex:  # noqa
             s = fmt_exc(ex)
         if shape.level == "unit":
@@ -456,4 +469,5 @@ def all_shapes():
         Shape("acl-p2/enforcer", ACL, "p", "p2", [["alice", "read"], ["bob", "read"], ["alice", "write"]]),
         Shape("rbac-g/enforcer", RBAC, "g", "g", G_RULES),
         Shape("rbac-g/unit", RBAC, "g", "g", G_RULES, level="unit"),
+        Shape("dom-g/enforcer", DOM, "g", "g", GD_RULES),
     ]
